@@ -548,16 +548,62 @@ def r16_7(ctx, prog, crate):
                 w = {2: "a", 3: "b"}.get(x[1])
             return ty, w, e[2]
         return None
+    def num_side(e):
+        """'a'|'b' when `e` is x.parse::<f64>() possibly wrapped in ok()/filter()/payload - the crate's "is a number" test."""
+        while True:
+            if e[0] == "payload":
+                e = e[3]
+                continue
+            if e[0] == "site" and e[1].rsplit("::", 1)[-1] in ("ok", "filter", "ok_or", "as_ref", "copied") and len(e) > 3 and e[3]:
+                e = e[3][0]
+                continue
+            break
+        ps = parse_site(e)
+        if ps and ps[0] == "f64" and ps[1]:
+            return ps[1], e[1] if e[0] == "site" else None
+        return None
+
+    MIRROR = {"lt": "gt", "gt": "lt", "eq": "eq"}
+    RELS = {("Lt", True): {"lt"}, ("Lt", False): {"eq", "gt"}, ("Le", True): {"lt", "eq"}, ("Le", False): {"gt"},
+            ("Gt", True): {"gt"}, ("Gt", False): {"lt", "eq"}, ("Ge", True): {"gt", "eq"}, ("Ge", False): {"lt"},
+            ("Eq", True): {"eq"}, ("Eq", False): {"lt", "gt"}, ("Ne", True): {"lt", "gt"}, ("Ne", False): {"eq"}}
+    REV = {"Less": "Greater", "Greater": "Less", "Equal": "Equal"}
+    INT = ("U", "N")
     bad = []
     stages = set()
+    covered = set()
+    mixed_dir = set()     # the direction a number takes against a non-number, normalised to (number, non-number)
+    tie_dir = set()       # the direction an integer takes against a non-integer of the same f64 value
     for sm in sums:
         fact = {}
+        feasible = True
+        rel = {"lt", "eq", "gt"}
+
+        def learn(k_, v):
+            nonlocal feasible
+            if v is None:
+                return
+            if fact.get(k_, v) != v:
+                feasible = False
+            fact[k_] = v
         for a, pol in sm.conds:
             if a[0] == "discr":
                 ps = parse_site(a[1])
-                if ps and ps[1]:
-                    fact[(ps[0], ps[1])] = (a[2] == 0) if pol else None
-            elif a[0] == "bool" and a[1][0] == "site" and a[1][1].endswith(("Result::is_ok", "Result::is_err")) and a[1][3]:
+                ns = num_side(a[1])
+                if ps and ps[1] and ps[0] != "f64":
+                    learn((ps[0], ps[1]), (a[2] == 0) if pol else (None if a[2] == 0 else None))
+                    if not pol and a[2] == 0:
+                        learn((ps[0], ps[1]), False)
+                elif ns:
+                    # Result: Ok = 0; Option: Some = 1
+                    is_opt = a[1][0] == "site" and a[1][1].rsplit("::", 1)[-1] in ("ok", "filter")
+                    yes = 1 if is_opt else 0
+                    if a[2] in (0, 1):
+                        learn(("num", ns[0]), (a[2] == yes) == bool(pol))
+                    elif isinstance(a[2], str) and a[2].startswith("other:"):
+                        v0 = int(a[2].split(":")[1])
+                        learn(("num", ns[0]), (v0 != yes) == bool(pol))
+            elif a[0] == "bool" and a[1][0] == "site" and a[1][1].endswith(("Result::is_ok", "Result::is_err", "Option::is_some", "Option::is_none")) and a[1][3]:
                 x = a[1][3][0]
                 ps = None
                 if x[0] == "site":
@@ -569,10 +615,40 @@ def r16_7(ctx, prog, crate):
                         for callee, args, bb in sm.calls:
                             if bb == c.bb:
                                 ps = ((c.gargs or ["?"])[0], who(args[0]), bb)
+                v = pol if a[1][1].endswith(("is_ok", "is_some")) else (not pol)
                 if ps and ps[1]:
-                    v = pol if a[1][1].endswith("is_ok") else (not pol)
-                    fact[(ps[0], ps[1])] = v
-        ua, ub, ia, ib, fa, fb = (fact.get(k_) for k_ in (("u128", "a"), ("u128", "b"), ("i128", "a"), ("i128", "b"), ("f64", "a"), ("f64", "b")))
+                    learn(("num" if ps[0] == "f64" else ps[0], ps[1]), v)
+                elif x[0] == "site" and num_side(x):
+                    learn(("num", num_side(x)[0]), v)
+            elif a[0] in ("Lt", "Le", "Gt", "Ge", "Eq", "Ne") and len(a) == 3:
+                sa, sb = num_side(a[1]), num_side(a[2])
+                if sa and sb and {sa[0], sb[0]} == {"a", "b"}:
+                    r_ = RELS[(a[0], bool(pol))]
+                    if sa[0] == "b":
+                        r_ = {MIRROR[x_] for x_ in r_}
+                    rel &= r_
+
+        def classes(sd):
+            cs = {"U", "N", "F", "S"}
+            u, i_, n = fact.get(("u128", sd)), fact.get(("i128", sd)), fact.get(("num", sd))
+            if u is True:
+                cs &= {"U"}
+            if u is False:
+                cs -= {"U"}
+            if i_ is True:
+                cs &= {"U", "N"}
+            if i_ is False:
+                cs -= {"N"}
+                if u is not True:
+                    cs -= {"U"} if u is False else set()
+            if n is True:
+                cs -= {"S"}
+            if n is False:
+                cs &= {"S"}
+            return cs
+        ca_, cb_ = classes("a"), classes("b")
+        if not feasible or not ca_ or not cb_ or not rel:
+            continue
         r = sm.env.get(ordl, ("undef", ordl))
         kind = None
         if r[0] == "site" and r[1].rsplit("::", 1)[-1] == "cmp" and len(r[3]) == 2:
@@ -584,25 +660,69 @@ def r16_7(ctx, prog, crate):
         elif r[0] == "adt" and r[1].endswith("cmp::Ordering"):
             kind = r[2]
         elif r[0] == "payload" and r[1] == "Some" and r[3][0] == "site" and r[3][1].rsplit("::", 1)[-1] == "partial_cmp":
-            kind = "float"
+            ops = [num_side(o) for o in r[3][3]]
+            kind = "float" if len(ops) == 2 and all(ops) and (ops[0][0], ops[1][0]) == ("a", "b") else "float-?"
         elif r[0] == "site" and r[1].endswith("natural_cmp"):
             kind = "natural"
         stages.add(kind)
-        int_row_excluded = (ua is not None and ub is not None) and not (ua and ub) and \
-            (not (ua and not ub) or ib is False) and (not (not ua and ub) or ia is False) and (not (not ua and not ub) or ia is False or ib is False)
-        ok = {
-            "cmp-u128": ua is True and ub is True,
-            "Greater": ua is True and ub is False and ib is True,
-            "Less": ua is False and ub is True and ia is True,
-            "cmp-i128": ua is False and ub is False and ia is True and ib is True,
-            "float": int_row_excluded and fa is True and fb is True,
-            "natural": int_row_excluded,
-        }.get(kind, False)
-        if not ok:
-            bad.append("%s when %s" % (kind or show(r), {"%s(%s)" % k_: v for k_, v in sorted(fact.items())}))
+        why = None
+        for ca in sorted(ca_):
+            for cb in sorted(cb_):
+                covered.add((ca, cb))
+                if (ca, cb) == ("U", "U"):
+                    want = {"cmp-u128"}
+                elif (ca, cb) == ("N", "N"):
+                    want = {"cmp-i128"}
+                elif (ca, cb) == ("U", "N"):
+                    want = {"Greater"}
+                elif (ca, cb) == ("N", "U"):
+                    want = {"Less"}
+                elif (ca, cb) == ("S", "S"):
+                    want = {"natural"}
+                elif cb == "S":
+                    want = {"Less", "Greater"}
+                    if kind in want:
+                        mixed_dir.add(kind)
+                elif ca == "S":
+                    want = {"Less", "Greater"}
+                    if kind in want:
+                        mixed_dir.add(REV[kind])
+                else:
+                    # two numbers, not both integers: by f64 value; on a tie an integer and a non-integer are kept apart
+                    want = set()
+                    for x_ in rel:
+                        if x_ == "lt":
+                            want.add("Less")
+                        elif x_ == "gt":
+                            want.add("Greater")
+                        elif (ca, cb) == ("F", "F"):
+                            want.add("Equal")
+                        else:
+                            want |= {"Less", "Greater"}
+                            if rel == {"eq"} and kind in ("Less", "Greater"):
+                                tie_dir.add(kind if ca in INT else REV[kind])
+                    if kind == "float" and (ca, cb) == ("F", "F"):
+                        want = {"float"}
+                    if len(rel) > 1 and kind in ("Less", "Greater", "Equal") and len(want) > 1:
+                        want = set()     # a constant answer although the float order is still open
+                if kind not in want and why is None:
+                    why = "%s for (%s, %s)%s" % (kind or show(r), ca, cb, "" if len(rel) == 3 else " with float order %s" % "/".join(sorted(rel)))
+        if why:
+            bad.append("%s when %s" % (why, {"%s(%s)" % k_: v for k_, v in sorted(fact.items())}))
     ctx.check(not bad, "R16.7", ["cmp_bench_arg_names", "numeric-staging"],
-              "paths of the Name arm that do not follow the value order's staging: %s" % bad[:4], b.where(name_t), detail=bad[:8])
-    ctx.check({"cmp-u128", "cmp-i128", "Greater", "Less", "float", "natural"} <= stages, "R16.7", ["cmp_bench_arg_names", "all-stages-present"],
+              "paths of the Name arm that do not give the total value order (classes: U unsigned integer, N negative integer, "
+              "F other number, S not a number): %s" % bad[:4], b.where(name_t), detail=bad[:8])
+    ctx.check(len(mixed_dir) == 1, "R16.7", ["cmp_bench_arg_names", "number-vs-non-number-ranked"],
+              "a number and a non-number must be ranked by class, one fixed way round (else float, natural and natural "
+              "comparisons disagree cyclically, e.g. 1e3 / 200 / 5x): directions seen %s" % sorted(mixed_dir), b.where(name_t))
+    ctx.check(len(tie_dir) == 1, "R16.7", ["cmp_bench_arg_names", "integer-vs-float-tie-ranked"],
+              "an integer and a non-integer of the same f64 value must be ranked one fixed way round (else two integers "
+              "beyond 2^53 and a float between them order cyclically through the location tie-break): directions seen %s"
+              % sorted(tie_dir), b.where(name_t))
+    allp = {(x_, y_) for x_ in "UNFS" for y_ in "UNFS"}
+    ctx.check(covered == allp, "R16.7", ["cmp_bench_arg_names", "all-class-pairs-covered"],
+              "class pairs no path of the Name arm covers: %s" % sorted(allp - covered), b.where(name_t))
+    ctx.check({"cmp-u128", "cmp-i128", "Greater", "Less", "natural"} <= stages, "R16.7", ["cmp_bench_arg_names", "all-stages-present"],
               "stages reached: %s" % sorted(str(s) for s in stages), b.where(name_t), detail=sorted(str(s) for s in stages))
 
 
